@@ -17,7 +17,7 @@
 (***************************************************************************)
 EXTENDS UpdateScripts, Json, FiniteSets
 
-CONSTANTS MaxSlots, KindMode, Cs, ArchG, ByOpts, Emit
+CONSTANTS MaxSlots, KindMode, Cs, ArchG, ByOpts, SubOpts, Emit
 
 FullKinds == {<<s, c>> : s \in {"out", "err", "file", "ain"}, c \in {"cmp", "neg", "env"}}
 CoreKinds == {<<"out", "cmp">>, <<"err", "cmp">>, <<"file", "cmp">>, <<"ain", "cmp">>, <<"out", "neg">>, <<"file", "env">>}
@@ -28,8 +28,8 @@ GoldChoices(c) == {[gold |-> "arch", g |-> i] : i \in ArchG} \cup {[gold |-> "ru
 SlotsFor(c) == {[src |-> kd[1], cmp |-> kd[2], c |-> c, gold |-> gc.gold, g |-> gc.g] : kd \in Kinds, gc \in GoldChoices(c)}
 SlotDomain  == {s \in UNION {SlotsFor(c) : c \in Cs} : SlotOK(s)}
 
-VARIABLES by, slots, o
-vars == <<by, slots, o>>
+VARIABLES by, sub, slots, o
+vars == <<by, sub, slots, o>>
 
 ----------------------------------------------------------------------------
 \* the emitted case
@@ -38,7 +38,7 @@ Nontrivial(sl) == UpdatedSlots(sl) # {} \/ FailingSlots(sl) # {}
 
 EntryCase(sl, oo, i) ==
   LET f   == oo.arch.files[i]
-      ks  == {k \in UpdatedSlots(sl) : GName[k] = f.name}
+      ks  == {k \in UpdatedSlots(sl) : GN(oo, k) = f.name}
       c   == Content[sl[CHOOSE k \in ks : TRUE].c] IN
   [name   |-> f.name, old |-> f.data,
    update |-> ks # {},                                              \* a failing cmp names this entry: the laws allow (on a passing run: demand) new data
@@ -49,6 +49,7 @@ EntryCase(sl, oo, i) ==
 
 Case(b, sl, oo) ==
   [by       |-> b,
+   sub      |-> oo.sub,
    slots    |-> sl,
    script   |-> oo.script,
    comment  |-> oo.arch.comment,
@@ -67,15 +68,17 @@ EmitCase(b, sl, oo) == IF Emit THEN PrintT(<<"EMIT", ToJson(Case(b, sl, oo))>>) 
 EmitTable == IF Emit THEN PrintT(<<"EMIT", ToJson([table |-> Content])>>) ELSE TRUE
 
 Init == /\ by \in ByOpts
+        /\ sub \in SubOpts
         /\ slots = <<>>
-        /\ o = Outcome(by, slots)
+        /\ o = Outcome(by, sub, slots)
         /\ EmitTable
         /\ EmitCase(by, slots, o)
 Next == /\ Len(slots) < MaxSlots
         /\ \E s \in SlotDomain :
              /\ slots' = Append(slots, s)
              /\ by' = by
-             /\ o' = Outcome(by, slots')
+             /\ sub' = sub
+             /\ o' = Outcome(by, sub, slots')
              /\ EmitCase(by, slots', o')
 Spec == Init /\ [][Next]_vars
 
@@ -89,6 +92,6 @@ InvPreserve    == LawPreserve(slots, o)
 InvHoldsActual == LawHoldsActual(slots, o)
 InvUnquotable  == LawUnquotable(slots, o)
 InvSecondRun   == LawSecondRun(slots, o)
-\* the model itself: names are at most one directory deep (DirOf / setup model one level)
-InvShape == \A i \in 1..Len(o.arch.files) : LastSlash(DirOf(o.arch.files[i].name), Len(DirOf(o.arch.files[i].name))) = 0
+\* the model itself: setup creates every directory an entry needs
+InvShape == \A i \in 1..Len(o.arch.files) : DirOf(o.arch.files[i].name) \in InitState(o.arch.files).dirs
 =============================================================================
